@@ -181,6 +181,9 @@ def run(ctx):
         ("required recursion through an array that may not be empty", {"schema": '@R // {nullable: true}', "types": [["@R", '{\n  "kids": [ // {minItems: 1}\n    @R\n  ]\n}']]}, None, "cutoff"),
         ("recursion through an array: only the first position is required", {"schema": "@R", "types": [["@R", '{\n  "kids": [ // {minItems: 1}\n    1,\n    @R\n  ]\n}']]}, None, "cutoff"),
         ("nullable property over a recursion through an array that may not be empty", {"schema": "@R", "types": [["@R", '{\n  "a": @S // {nullable: true}\n}'], ["@S", '[ // {minItems: 1}\n  @R\n]']]}, None, "cutoff"),
+        ("or on an empty container with a user type wrapped in a rule-set", {"schema": '{} // {or: [{type: "@T", nullable: true}, {type: "string"}]}', "types": [["@T", '{\n  "k": 1\n}']]}, None, None),
+        ("or on an empty container with a user type wrapped in a rule-set", {"schema": '[] // {or: [{type: "@A", nullable: true}, {type: "string"}]}', "types": [["@A", '[ // {minItems: 1}\n  1\n]']]}, None, None),
+        ("or on an empty container with a user type wrapped in a rule-set", {"schema": '{\n  "p": {} // {or: [{type: "@T", nullable: true}, {type: "@U", nullable: true}]}\n}', "types": [["@T", '{\n  "k": 1\n}'], ["@U", '{\n  "b": 2\n}']]}, None, None),
         ("or on an empty container", {"schema": '[] // {or: [{type: "array"}, {type: "string"}]}'}, None, None),
         ("or on an empty container", {"schema": '{} // {or: [{type: "object"}, {type: "string"}]}'}, None, None),
         ("or on an empty container", {"schema": '{\n  "k": [] // {or: [{type: "array"}, {type: "string"}]}\n}'}, None, None),
